@@ -32,6 +32,11 @@ def run(ctx):
     if thorough:
         suite += [("W7", 4, None, 60000), ("W7c", 5, None, 60000)]
     hotcommon.run_suite(ctx, suite, hotcommon.classify_other("C09"))
+    # faults that are not injected errors: a file-backed archive whose file shrinks after the index was built
+    rep = worlds.parse_report(vlib.run_bin("amv", ["c09-trunc", vlib.WORK], timeout=600))
+    ctx.cov["truncated_archive_cases"] = rep["cases"]
+    for m in rep["mismatches"]:
+        ctx.violation(f"C09/truncated-archive:{m.get('kind')}", f"{m.get('what')} ({m.get('kind')}, archive file cut to {m.get('file_bytes')} bytes)", {"mismatch": m})
     ctx.cov["rule"] = ("every history of worlds W7/W7c/W7r: a fault plan (read index 0..3 x {notfound, denied, other}; loader invocation 0..1 x {err, panic}) "
                        "armed before a load or a reload, then disarm/repair and retry; distinct by content; non-trivial = some call failed or some reload happened")
     ctx.cov["exhaustive"] = False
